@@ -16,6 +16,8 @@ THEOREMS = {
         'RsomeV.C01.rc_sound',
         'RsomeV.C01.eval_negRows',
         'RsomeV.C01.rc_sound_eq',
+        'RsomeV.C01.rc_sound_late',
+        'RsomeV.C01.rc_sound_late\'',
     ],
     'RsomeV.Props.C08': ['RsomeV.C08.cone_dual_weak'],
 }
@@ -64,7 +66,8 @@ def fragment_from_code(out, nc):
     A = np.vstack(rows) if rows else np.zeros((0, nc))
     return {"nr": int(A.shape[0]), "nc": int(nc), "a": [[C.fr(v) for v in r] for r in A], "b": b, "eq": eq,
             "ub": ub, "lb": lb, "qmat": qmat, "xmat": xmat,
-            "n1": sizes[0] if sizes else 0, "n2": sizes[1] if len(sizes) > 1 else 0, "n3": sizes[2] if len(sizes) > 2 else 0}
+            "n1": sizes[0] if sizes else 0, "n2": sizes[1] if len(sizes) > 1 else 0, "third": sizes[2] if len(sizes) > 2 else 0,
+            "nblocks": len(sizes)}
 
 
 def rows_json(con, nd):
@@ -98,12 +101,19 @@ def correspondence(ctx, d, reqs, meta):
         nd = con.dec_model.last
         rj = rows_json(con, nd)        # before the call: le_to_rc zero-pads con.affine.linear in place
         sj = C.prog_json(support)
-        if rj['nz'] > sj['nr']:
-            ctx.count('rc:late-rvar(skipped)'); continue
         with C.quiet():
             out = con.le_to_rc(None if con.support else m.obj_support)
         nc = con.dec_model.last
         code = fragment_from_code(out, nc)
+        # a third block of rows is either the support's extra rows (fewer random components in the row block than rows in
+        # the support's dual: nz < nr) or the vanishing coefficients of late random variables (nz > nr) - never both
+        third = code.pop('third'); nblocks = code.pop('nblocks')
+        if nblocks > 3:
+            ctx.hit('le_to_rc-returns-unexpected-blocks', {"blocks": nblocks}, {"desc": d, "constraint": ci}); continue
+        code['n3'] = third if rj['nz'] < sj['nr'] else 0
+        code['n4'] = third if rj['nz'] > sj['nr'] else 0
+        if rj['nz'] > sj['nr']:
+            ctx.count('rc:late-rvar:block-present' if third else 'rc:late-rvar:block-absent')
         reqs.append({"op": "le_to_rc", "support": {k: sj[k] for k in SUPKEYS + ('sp',)}, "rows": rj})
         meta.append({"desc": d, "constraint": ci, "code": code, "support": sj})
         # non-trivial: a bounded multiplier column and a non-zero random coefficient
@@ -117,7 +127,7 @@ def correspondence(ctx, d, reqs, meta):
             ctx.count('rc:mixed-senses')
 
 
-FRAGKEYS = ('nr', 'nc', 'a', 'b', 'eq', 'ub', 'lb', 'qmat', 'xmat', 'n1', 'n2', 'n3')
+FRAGKEYS = ('nr', 'nc', 'a', 'b', 'eq', 'ub', 'lb', 'qmat', 'xmat', 'n1', 'n2', 'n3', 'n4')
 
 
 def run(ctx):
@@ -141,8 +151,10 @@ def run(ctx):
         case = {"desc": mt['desc'], "constraint": mt['constraint']}
         ctx.corr('RoConstr.le_to_rc', case, mt['code'], out, FRAGKEYS)
         ctx.sample({"desc": mt['desc'], "constraint": mt['constraint'], "fragment_shape": [mt['code']['nr'], mt['code']['nc']]}, limit=2)
+    # ---- (c) the late-random-variable branches of le_to_rc (block 4), dedicated generator -------------------------
+    C.run_difftest(ctx, 'test_late_rvar.py', ctx.n(40, 400), 'RoConstr.le_to_rc (random variables declared after the set)')
     # ---- search --------------------------------------------------------------------------
-    bad = {id(dg['case']['desc']) for dg in ctx.disagreements}
+    bad = {id(dg['case'].get('desc')) for dg in ctx.disagreements}
     order = sorted(range(len(descs)), key=lambda i: 0 if id(descs[i]) in bad else 1)
     for i in order[:n_search]:
         search_one(ctx, descs[i])
